@@ -360,8 +360,6 @@ struct SidePlan {
     codes: Vec<Vec<u64>>,
     /// `.rip/artifacts` is damaged when activity i's run compiles its context
     no_artifacts: Vec<bool>,
-    /// `.rip/checkpoints` is damaged when activity i's run starts
-    no_checkpoints: Vec<bool>,
     /// a sidecar file of the thread is a directory when activity i's run compiles: the compile outcome is observed
     compile_observed: Vec<bool>,
     any: bool,
@@ -388,19 +386,20 @@ fn act_damage(a: &Act) -> Vec<Target> {
 fn side_plan(c: &Case) -> SidePlan {
     let n = c.acts.len();
     let hook = !c.side_faults.is_empty();
-    let mut pl = SidePlan { snap_fails: vec![hook; n], codes: vec![if hook { vec![1] } else { vec![] }; n], no_artifacts: vec![false; n], no_checkpoints: vec![false; n], compile_observed: vec![false; n], any: hook };
+    let mut pl = SidePlan { snap_fails: vec![hook; n], codes: vec![if hook { vec![1] } else { vec![] }; n], no_artifacts: vec![false; n], compile_observed: vec![false; n], any: hook };
     for (i, a) in c.acts.iter().enumerate() {
         for t in act_damage(a) {
             pl.any = true;
             let upto = if t == Target::SnapFile { i + 1 } else { n };
             for j in i..upto {
-                if !pl.codes[j].contains(&t.sw_code()) {
+                // (the damaging run itself compiled its context / took its auto checkpoint before the damage)
+                let in_effect = j > i || !matches!(t, Target::Artifacts | Target::Checkpoints);
+                if in_effect && !pl.codes[j].contains(&t.sw_code()) {
                     pl.codes[j].push(t.sw_code());
                 }
                 match t {
                     Target::SnapDir | Target::SnapFile => pl.snap_fails[j] = true,
                     Target::Artifacts if j > i => pl.no_artifacts[j] = true,
-                    Target::Checkpoints if j > i => pl.no_checkpoints[j] = true,
                     Target::SidecarFull | Target::SidecarMr | Target::SidecarIdx if j > i => pl.compile_observed[j] = true,
                     _ => {}
                 }
@@ -1627,15 +1626,16 @@ async fn exec_case(c: &Case, root: &Path) -> Result<Exec, String> {
 /// calibration store (tool envelope, unlinked session)
 type Calib = BTreeMap<Tool, (u64, u64)>;
 
-/// what the damaged side directories mean for the tools of a run: `nock` = `.rip/checkpoints` is damaged (the auto
-/// checkpoint of a mutating tool fails), `noart` = `.rip/artifacts` is damaged (an overflow artifact cannot be written)
+/// what a damaged side directory means for the MEASURED part of a tool's outcome: `noart` = `.rip/artifacts` is damaged
+/// (the overflow artifact of a `bash` call cannot be written: other stdout / stderr frame counts, calibrated in that state).
+/// What the model derives itself from the failure pattern (`k_swf`: compile failure, failed auto checkpoint) is NOT put
+/// into the terms here.
 #[derive(Clone, Copy, Default)]
 struct Cx {
-    nock: bool,
     noart: bool,
 }
-fn tool_out_term(t: Tool, res: &str, cx: Cx) -> String {
-    format!("{{| t_auto := {}; t_res := {} |}}", if cx.nock && t.auto() == 1 { 2 } else { t.auto() }, res)
+fn tool_out_term(t: Tool, res: &str, _cx: Cx) -> String {
+    format!("{{| t_auto := {}; t_res := {} |}}", t.auto(), res)
 }
 /// a calibration entry whose tool ended with tool_failed instead of tool_ended
 const CAL_FAILED: (u64, u64) = (u64::MAX, 0);
@@ -1739,10 +1739,11 @@ fn case_term(c: &Case, ex: &Exec, cal: &Calib) -> Option<String> {
     // the compile outcome of a linked provider run: predicted - fails iff the summaries / the artifact directory are broken -
     // except after a sidecar FILE was made a directory (which reader falls back to the log is C05/C08's business): observed
     let compile_ok = |i: usize, sid: &str| -> bool {
-        if plan.compile_observed[i] {
+        if plan.compile_observed[i] && !plan.no_artifacts[i] {
             !ex.log.iter().any(|l| l.stream == sid && l.ty == "session_ended" && l.s("reason") == "context_compile_failed")
         } else {
-            !c.break_summaries && !plan.no_artifacts[i]
+            // (a damaged artifact directory is in `k_swf`: the model turns it into the compile failure)
+            !c.break_summaries
         }
     };
     let cut_tools = read_cut_tool_ids(&ex.log);
@@ -1791,7 +1792,7 @@ fn case_term(c: &Case, ex: &Exec, cal: &Calib) -> Option<String> {
                 };
                 let (input, provider) = (&input, &provider);
                 let (Some(sid), Some(mid)) = (&id.sid, &id.mid) else { return None };
-                let t = format!("APost {} {} {} {}", cfg_term(provider.as_ref()), 200 + i, 100 + i, input_term(input, provider.as_ref(), &ex.preds[i], cal, compile_ok(i, sid), Cx { nock: plan.no_checkpoints[i], noart: plan.no_artifacts[i] }));
+                let t = format!("APost {} {} {} {}", cfg_term(provider.as_ref()), 200 + i, 100 + i, input_term(input, provider.as_ref(), &ex.preds[i], cal, compile_ok(i, sid), Cx { noart: plan.no_artifacts[i] }));
                 let o = ex.log.iter().filter(|l| (l.is_session() && l.stream == *sid) || (l.is_cont() && ((l.ty == "continuity_message_appended" && l.id == *mid) || l.s("run_session_id") == *sid))).collect();
                 (t, o)
             }
@@ -1800,7 +1801,7 @@ fn case_term(c: &Case, ex: &Exec, cal: &Calib) -> Option<String> {
                 if id.status != 202 {
                     return None;
                 }
-                let t = format!("AInput {} {} {}", cfg_term(provider.as_ref()), 100 + i, input_term(input, provider.as_ref(), &ex.preds[i], cal, true, Cx { nock: plan.no_checkpoints[i], noart: plan.no_artifacts[i] }));
+                let t = format!("AInput {} {} {}", cfg_term(provider.as_ref()), 100 + i, input_term(input, provider.as_ref(), &ex.preds[i], cal, true, Cx { noart: plan.no_artifacts[i] }));
                 let o = ex.log.iter().filter(|l| l.is_session() && l.stream == *sid).collect();
                 (t, o)
             }
@@ -2196,7 +2197,8 @@ fn side_write_cases(r: &mut Rng, thorough: bool) -> Vec<Case> {
     let prov = |reqs: Vec<Req>| Some(ProviderSpec { stateless: false, choice: Choice::Auto, closed_port: false, forever: false, reqs });
     let text = || text_req(vec![Sse::Created { id: true }, Sse::Delta, Sse::Completed { id: true }]);
     let next = |k: u64| -> Act {
-        match k % 8 {
+        match k % 9 {
+            8 => Act::Post { input: InputSpec::CkCreate { ok: true }, provider: None },
             7 => Act::Post { input: InputSpec::ToolEnv { tool: Tool::BashOverflow, tmo: 0 }, provider: None },
             0 => Act::Post { input: InputSpec::Prompt, provider: None },
             1 => Act::Post { input: InputSpec::Prompt, provider: prov(vec![text()]) },
@@ -2208,7 +2210,7 @@ fn side_write_cases(r: &mut Rng, thorough: bool) -> Vec<Case> {
         }
     };
     let mut out = vec![];
-    let mut k = r.below(8);
+    let mut k = r.below(9);
     for t in DIR_TARGETS {
         for delivery in 0..3u8 {
             for engine in [false, true] {
@@ -2225,7 +2227,7 @@ fn side_write_cases(r: &mut Rng, thorough: bool) -> Vec<Case> {
                     }
                     acts.push(damage.clone());
                     acts.push(next(k));
-                    acts.push(next(k + 1 + k / 8));
+                    acts.push(next(k + 1 + k / 9));
                     k += 1;
                     // an unlinked session's provider would be the router's app-level default: keep those runs provider-less there
                     out.push(Case { faults: vec![], side_faults: vec![], engine, parallel: false, acts, break_summaries: false });
